@@ -119,12 +119,20 @@ def run(ctx):
         "resolver scheduling: the model is sequential; schedule-independence is C06",
         "user code is the oracle recorded by the universal plan-driven resolver (go/universal)",
     ]
-    proved = ctx.prove(props=["GqlgenVerif.Props.C01"])
-    if not proved:
-        ctx.cov["proof_failure"] = ctx.proof_failure
     cfgs = gensrv.QUICK if ctx.tier == "quick" else gensrv.THOROUGH
     n = 1500 if ctx.tier == "quick" else 12000
     built = gensrv.build_matrix(ctx, "exec", cfgs)
+    # list-completion facts, re-extracted from the server generated on this run
+    ok_extract = not isinstance(built["base"], Exception) and ctx.extract("ListFacts", arg=gensrv.gen_dir("exec", "base"))
+    # argument-unmarshalling context, from the method-syntax and the function-syntax package
+    ok_extract = ok_extract and not isinstance(built.get("follow_funcsyn_wl2"), Exception) and ctx.extract(
+        "ArgCtxFacts", arg=gensrv.gen_dir("exec", "base") + "," + gensrv.gen_dir("exec", "follow_funcsyn_wl2"))
+    proved = ctx.prove(props=["GqlgenVerif.Props.C01"] + (["GqlgenVerif.Props.C01Gen"] if ok_extract else []))
+    if not ok_extract:
+        proved = False
+        ctx.proof_failure = ["Gen/ListFacts or Gen/ArgCtxFacts could not be regenerated from the generated servers (broken tie)"]
+    if not proved:
+        ctx.cov["proof_failure"] = ctx.proof_failure
     # the same schema plus a directive `on FIELD`: field.gotpl then emits its _fieldMiddleware flavour
     fd = gensrv.build_matrix(ctx, "execfd", ["base"] if ctx.tier == "quick" else ["base", "follow_funcsyn_wl2"])
     for k, v in fd.items():
